@@ -24,7 +24,6 @@ from common import Run, replay_script  # noqa: E402
 
 import lib_c06_catalogue as cat  # noqa: E402
 from lib_c06_harness import H_run07, make_slotdefs, replay_source  # noqa: E402
-import lib_c07_mixed as mx  # noqa: E402
 
 have, missing, handled_missing = cat.coverage()
 nfun = len(cat.dispatching_functions())
@@ -91,81 +90,7 @@ for c in cat.CASES:
                 seen.add(key)
                 R.fail(key, "%s with %s, %s -> %s: %s" % (c.expr, c.variant, s0, s1, msg), replay_for(sd, c, s0, s1, aspect))
 
-# ---------------------------------------------------------------------------------------------
-# mixed configurations: templates with >= 2 quantity slots, every non-empty proper subset of them
-# bare (ndarray and nested list); see lib_c07_mixed for the two relations checked.
-mcounts = {"ok": 0, "raises": 0, "skipped": 0, "bdl-ok": 0, "bdl-raises": 0, "configs": 0}
-mfuncs = set()
-for c in cat.CASES:
-    if c.text or c.tid.endswith("/obare"):
-        continue
-    if not mx.bare_subsets(c):
-        continue
-    tol = c.tol or 1e-9
-    for draw in range(DRAWS):
-        rng = random.Random("%d|%s|%s|%s|%d" % (seed, c.fname, c.tid, c.variant, draw))
-        try:
-            sd = make_slotdefs(c, rng)
-            configs = mx.mixed_configs(c, sd)
-        except Exception as e:
-            driver_errors.append("mixed %s:%s[%s] %r" % (c.fname, c.tid, c.variant, e))
-            continue
-        for bare, form, sdm, expr in configs:
-            mcounts["configs"] += 1
-            mfuncs.add(c.fname)
-            tag = "bare-" + "+".join(bare)
-            keep = c.keep if (c.keep and c.keep.partition("@")[0] not in bare) else None
-            scaled = any(d not in "-X1" for d, *_ in sdm.values())
-            ckey = "C07[%s:%s:%s]%s/%s" % (c.fname, c.tid, tag, c.variant, form)
-            # (cov) covariance with the bare slots held fixed
-            for s0, s1 in PAIRS:
-                try:
-                    st, found = H_run07(sdm, expr, s0, s1, keep=keep, tol=tol, nocov=c.nocov)
-                except Exception as e:
-                    driver_errors.append("mixed %s:%s[%s] %s %r" % (c.fname, c.tid, c.variant, tag, e))
-                    continue
-                mcounts[st] += 1
-                if st == "skipped":
-                    continue
-                R.case(ckey, nontrivial=(st == "ok" and scaled),
-                       sample={"expr": expr, "slots": c.variant, "bare": list(bare), "form": form, "systems": [s0, s1]}
-                       if draw == 0 and form == "list" and c.tid == "density" else None)
-                if st == "raises":
-                    continue
-                if c.garbage:
-                    found = [(a, m) for a, m in found if a not in ("value", "bare-value", "inexact")]
-                for aspect, msg in found:
-                    key = "C07[%s:%s:%s:%s]" % (c.fname, c.tid, tag, aspect)
-                    if key in seen:
-                        continue
-                    seen.add(key)
-                    R.fail(key, "%s with %s, %s as bare %s, %s -> %s: %s" % (expr, c.variant, "/".join(bare), form, s0, s1, msg),
-                           replay_script(mx.replay_cov(sdm, expr, s0, s1, keep, tol, c.nocov, aspect)))
-            # (bdl) bare == dimensionless
-            if c.garbage:
-                continue
-            for s0 in sorted({p[0] for p in PAIRS}):
-                try:
-                    st, found = mx.M_run(sdm, expr, c.expr, bare, s0, tol)
-                except Exception as e:
-                    driver_errors.append("mixed-bdl %s:%s[%s] %s %r" % (c.fname, c.tid, c.variant, tag, e))
-                    continue
-                mcounts["bdl-" + st] += 1
-                R.case(ckey + "/bdl", nontrivial=(st == "ok"))
-                if st == "raises":
-                    continue
-                if c.nocov:
-                    found = [(a, m) for a, m in found if a != "bdl-value"]
-                for aspect, msg in found:
-                    key = "C07[%s:%s:%s:%s]" % (c.fname, c.tid, tag, aspect)
-                    if key in seen:
-                        continue
-                    seen.add(key)
-                    R.fail(key, "%s with %s, %s as bare %s, in %s: %s" % (expr, c.variant, "/".join(bare), form, s0, msg),
-                           replay_script(mx.replay_bdl(sdm, expr, c.expr, bare, s0, tol, aspect)))
-
 R.notes.append("outcomes: %r" % counts)
-R.notes.append("mixed configurations (subset of the quantity slots bare, ndarray and list form): %d functions, %r" % (len(mfuncs), mcounts))
 R.notes.append("functions/templates that raise on quantities in both systems (no covariance statement): " +
                "; ".join("%s(%s)" % (f, ",".join(sorted(t))) for f, t in sorted(raises.items())))
 if handled_missing:
